@@ -15,7 +15,9 @@ OPTS = ["--all", "--bare", "--color", "--colour", "--count", "--dry-run", "--exc
         "--file", "--force", "--help", "--include", "--no-pager", "--null", "--null-data", "--quiet", "--verbose",
         "--version", "-a", "-b", "-c", "-f", "-h", "-n", "-q", "-v", "-x"]
 DESCRS = ["be quiet", "show version", "use FILE", "a \\\"quoted\\\" word", "back\\\\slash", "$HOME `id` !x", "tabs and: colons",
-          "x", "print 0 byte after name", "do not strip CR characters (MSDOS/Windows)"]
+          "x", "print 0 byte after name", "do not strip CR characters (MSDOS/Windows)",
+          # UTF-8 text, written as latin-1-decoded bytes because grammar texts travel as latin-1 strings
+          "gro\xc3\x9f und klein", "\xe6\x97\xa5\xe6\x9c\xac\xe8\xaa\x9e", "caf\xc3\xa9 \xe2\x80\x94 na\xc3\xafve"]
 ODD_LITS = ["a\\|b", "x\\;y", "\\(p\\)", "q\\\"r", "dot.", "..", "a\\.\\.\\.b", "it's", "50%", "~user", "*glob?", "$var", "`tick`",
             "#hash", "a&b", "k=v", "+x", "@at", "^caret", "c:/path", "co,mma", "\\[b\\]", "\\{c\\}", "\\<lt\\>", "back\\\\sl"]
 CMDS = ["echo foo; echo bar", "printf '%s\\n' a b c", "compgen -A file -- \"$1\"", "git branch --format='%(refname:short)'",
